@@ -1,5 +1,6 @@
 (* C17 - proofs. *)
 From CfdmV Require Import Common.Base Tables.AppendConstants C17.Model C17.Spec.
+From Coq Require Import DecimalString DecimalNat FinFun.
 Open Scope string_scope.
 Open Scope list_scope.
 
@@ -278,49 +279,76 @@ Proof.
 Qed.
 
 Lemma le_set_gl gl s : le s (set_gl gl s).
+Proof. le_same. Qed.
+
+Lemma le_reopen s : le s (reopen s).
 Proof.
   split; [|split; [simpl; auto | unfold nvars; simpl; auto]].
   intros e (Hd & Hv & Hg & Hc). unfold ext; simpl. repeat split; auto.
 Qed.
 
-Lemma append_run_ext vr nc4 e orig new : ext e (append_run vr nc4 e orig new).
+(* _write_global_attributes leaves the file alone in the dry run and in the
+   pass that follows it: this is where "global attributes as they were" is
+   decided - every attribute, Conventions included *)
+Lemma le_write_globals m o fs s :
+  m_dry m || m_post m = true -> le s (write_globals m o fs s).
+Proof.
+  intro Hm. unfold write_globals.
+  destruct fs as [|f0 r]; [apply le_set_err|].
+  destruct (conv_value o (f0 :: r)) as [cv|]; [|apply le_set_err].
+  replace (negb (m_dry m) && negb (m_post m)) with false
+    by (destruct (m_dry m), (m_post m); simpl in *; congruence).
+  simpl. le_same.
+Qed.
+
+Lemma le_dry_run vr e orig : le (init e) (dry_run vr e orig).
+Proof.
+  unfold dry_run. eapply le_trans; [|le_same]. eapply le_trans; [|apply le_write_fields]. le_same.
+Qed.
+
+Lemma le_post_pass vr o new s :
+  le s (log [EClose] (write_fields (post_mode vr) new
+         (write_globals (post_mode vr) o new (reopen (log [EOpenA] s))))).
+Proof.
+  eapply le_trans; [|le_same]. eapply le_trans; [|apply le_write_fields].
+  eapply le_trans; [|apply le_write_globals; reflexivity].
+  eapply le_trans; [|apply le_reopen]. le_same.
+Qed.
+
+Lemma append_run_ext vr nc4 o e orig new : ext e (append_run vr nc4 o e orig new).
 Proof.
   unfold append_run. destruct (refuse vr nc4 orig new).
   - apply (proj1 (le_set_err (init e))), ext_init.
-  - set (dry := {| m_dry := true; m_post := false; m_var := vr |}).
-    set (post := {| m_dry := false; m_post := true; m_var := vr |}).
-    assert (H1 : ext e (log [EClose] (write_fields dry orig (log [EOpenR] (init e))))).
-    { assert (L : le (init e) (log [EClose] (write_fields dry orig (log [EOpenR] (init e))))).
-      { eapply le_trans; [|le_same]. eapply le_trans; [|apply le_write_fields]. le_same. }
-      apply (proj1 L), ext_init. }
+  - assert (H1 : ext e (dry_run vr e orig)) by (apply (proj1 (le_dry_run vr e orig)), ext_init).
     destruct (w_err _); [exact H1|].
-    assert (L : forall s, le s (log [EClose] (write_fields post new
-                 (set_gl (compute_gl vr (d_gatts e) new) (log [EOpenA] s))))).
-    { intro s. eapply le_trans; [|le_same]. eapply le_trans; [|apply le_write_fields].
-      eapply le_trans; [|apply le_set_gl]. le_same. }
-    apply (proj1 (L _)), H1.
+    apply (proj1 (le_post_pass vr o new _)), H1.
 Qed.
 
-Theorem preserve vr nc4 e orig new : extends e (fst (append vr nc4 e orig new)).
+Theorem preserve vr nc4 o e orig new : extends e (fst (append vr nc4 o e orig new)).
 Proof.
-  unfold append; simpl. destruct (append_run_ext vr nc4 e orig new) as (Hd & Hv & Hg & _).
+  unfold append; simpl. destruct (append_run_ext vr nc4 o e orig new) as (Hd & Hv & Hg & _).
   unfold extends. auto.
 Qed.
+
+(* the Conventions attribute in particular *)
+Corollary conventions_kept vr nc4 o e orig new :
+  assoc "Conventions" (d_gatts (fst (append vr nc4 o e orig new))) = assoc "Conventions" (d_gatts e).
+Proof. destruct (preserve vr nc4 o e orig new) as (_ & _ & H). rewrite H. reflexivity. Qed.
 
 (* ------------------------------------------------------------------------ *)
 (* 2. Refusal comes first                                                     *)
 (* ------------------------------------------------------------------------ *)
-Theorem refuse_first vr nc4 e orig new :
+Theorem refuse_first vr nc4 o e orig new :
   refuse vr nc4 orig new = true ->
-  let s := append_run vr nc4 e orig new in
+  let s := append_run vr nc4 o e orig new in
   w_file s = e /\ w_log s = [ERead; ERaise] /\ no_modification (w_log s) /\
-  append vr nc4 e orig new = (e, Refused).
+  append vr nc4 o e orig new = (e, Refused).
 Proof.
   intro H. unfold append, append_run. rewrite H. simpl. repeat split.
 Qed.
 
-Theorem not_refused_outcome vr nc4 e orig new :
-  refuse vr nc4 orig new = false -> snd (append vr nc4 e orig new) <> Refused.
+Theorem not_refused_outcome vr nc4 o e orig new :
+  refuse vr nc4 orig new = false -> snd (append vr nc4 o e orig new) <> Refused.
 Proof.
   intro H. unfold append. rewrite H. simpl. destruct (w_err _); discriminate.
 Qed.
@@ -361,14 +389,15 @@ Proof.
   apply String.eqb_eq in H. congruence.
 Qed.
 
-Theorem props_kept_or_held gatts fs f a x :
+Theorem props_kept_or_held o gatts fs f a x :
   In f fs -> prop_of (f_props f) a = Some x ->
-  kept_or_held gatts (compute_gl new_code gatts fs) a x.
+  kept_or_held gatts (compute_gl new_code o gatts fs) a x.
 Proof.
   intros Hin Hp. unfold kept_or_held.
-  destruct (smem a (compute_gl new_code gatts fs)) eqn:E; [right | left; reflexivity].
+  destruct (smem a (compute_gl new_code o gatts fs)) eqn:E; [right | left; reflexivity].
   apply smem_In in E. unfold compute_gl in E. destruct fs as [|f0 rest]; [destruct Hin|].
-  simpl in E. apply filter_In in E as [E Hg]. apply filter_In in E as [_ Hs].
+  cbn [fx_global new_code] in E. apply filter_In in E as [E Hg].
+  unfold compute_gl0 in E. apply filter_In in E as [_ Hs].
   apply option_str_eqb_eq in Hg.
   destruct (prop_of (f_props f0) a) as [p0|] eqn:E0; [|discriminate].
   destruct Hin as [<- | Hin].
@@ -567,10 +596,10 @@ Qed.
 
 (* a refused step in the middle of a sequence leaves the file as it was *)
 Theorem iterated_refused_step vr nc4 reread e n r :
-  refuse vr nc4 (reread e) n = true ->
+  refuse vr nc4 (reread e) (snd n) = true ->
   append_seq vr nc4 reread e (n :: r) = append_seq vr nc4 reread e r.
 Proof.
-  intro H. cbn [append_seq]. destruct (refuse_first vr nc4 e (reread e) n H) as (_ & _ & _ & E).
+  intro H. cbn [append_seq]. destruct (refuse_first vr nc4 (fst n) e (reread e) (snd n) H) as (_ & _ & _ & E).
   rewrite E. reflexivity.
 Qed.
 
@@ -660,24 +689,633 @@ Proof.
   pose proof (write_field_adds m f s Hdry E). specialize (IH _ Hdry Herr). lia.
 Qed.
 
-Theorem one_variable_per_field vr nc4 e orig new :
-  snd (append vr nc4 e orig new) = Done ->
-  (length (d_vars e) + length new <= length (d_vars (fst (append vr nc4 e orig new))))%nat.
+Theorem one_variable_per_field vr nc4 o e orig new :
+  snd (append vr nc4 o e orig new) = Done ->
+  (length (d_vars e) + length new <= length (d_vars (fst (append vr nc4 o e orig new))))%nat.
 Proof.
   unfold append, append_run. cbn [fst snd]. destruct (refuse vr nc4 orig new); [discriminate|].
-  set (dry := {| m_dry := true; m_post := false; m_var := vr |}).
-  set (post := {| m_dry := false; m_post := true; m_var := vr |}).
-  set (s1 := log [EClose] (write_fields dry orig (log [EOpenR] (init e)))).
-  assert (L1 : le (init e) s1).
-  { unfold s1. eapply le_trans; [|le_same]. eapply le_trans; [|apply le_write_fields]. le_same. }
+  set (s1 := dry_run vr e orig).
+  pose proof (le_dry_run vr e orig) as L1. fold s1 in L1.
   destruct (w_err s1) eqn:E1; [rewrite E1; discriminate|].
-  set (s2 := set_gl (compute_gl vr (d_gatts e) new) (log [EOpenA] s1)).
-  destruct (w_err (log [EClose] (write_fields post new s2))) eqn:E2; [discriminate|].
-  intros _. change (w_err (write_fields post new s2) = false) in E2.
-  pose proof (write_fields_add post new s2 eq_refl E2) as H.
-  destruct L1 as (_ & _ & Ln). unfold nvars in *.
-  change (d_vars (w_file (log [EClose] (write_fields post new s2))))
-    with (d_vars (w_file (write_fields post new s2))).
-  change (d_vars (w_file s2)) with (d_vars (w_file s1)) in H.
+  set (s2 := write_globals (post_mode vr) o new (reopen (log [EOpenA] s1))).
+  destruct (w_err (log [EClose] (write_fields (post_mode vr) new s2))) eqn:E2; [discriminate|].
+  intros _. change (w_err (write_fields (post_mode vr) new s2) = false) in E2.
+  pose proof (write_fields_add (post_mode vr) new s2 eq_refl E2) as H.
+  assert (L2 : le s1 s2).
+  { unfold s2. eapply le_trans; [|apply le_write_globals; reflexivity].
+    eapply le_trans; [|apply le_reopen]. le_same. }
+  destruct L1 as (_ & _ & Ln). destruct L2 as (_ & _ & Ln2). unfold nvars in *.
+  change (d_vars (w_file (log [EClose] (write_fields (post_mode vr) new s2))))
+    with (d_vars (w_file (write_fields (post_mode vr) new s2))).
   change (d_vars (w_file (init e))) with (d_vars e) in Ln. lia.
+Qed.
+
+(* ------------------------------------------------------------------------ *)
+(* 10. _netcdf_name always finds a name that is not in use                    *)
+(* ------------------------------------------------------------------------ *)
+Definition cand (base : string) (k : nat) : string := (base ++ "_" ++ nat_str k)%string.
+
+Lemma app_inj_l (a x y : string) : (a ++ x = a ++ y)%string -> x = y.
+Proof. induction a as [|c a IH]; simpl; intro H; [exact H | injection H; auto]. Qed.
+
+Lemma nat_str_inj i j : nat_str i = nat_str j -> i = j.
+Proof.
+  unfold nat_str. intro H.
+  assert (E : Some (Nat.to_uint i) = Some (Nat.to_uint j)).
+  { rewrite <- (NilEmpty.usu (Nat.to_uint i)), <- (NilEmpty.usu (Nat.to_uint j)), H. reflexivity. }
+  injection E as E. rewrite <- (Unsigned.of_to i), <- (Unsigned.of_to j), E. reflexivity.
+Qed.
+
+Lemma cand_inj base i j : cand base i = cand base j -> i = j.
+Proof.
+  unfold cand. intro H. apply app_inj_l in H. simpl in H. injection H as H. apply nat_str_inj, H.
+Qed.
+
+Lemma first_free_none base ex fuel : forall k,
+  first_free base ex k fuel = None -> forall j, (j < fuel)%nat -> In (cand base (k + j)) ex.
+Proof.
+  induction fuel as [|f IH]; intros k H j Hj; [lia|].
+  cbn [first_free] in H. fold (cand base k) in H. destruct (smem (cand base k) ex) eqn:E; [|discriminate].
+  destruct j as [|j].
+  - rewrite Nat.add_0_r. apply smem_In, E.
+  - replace (k + S j)%nat with (S k + j)%nat by lia. apply IH; [exact H | lia].
+Qed.
+
+Lemma first_free_some base ex fuel : forall k c,
+  first_free base ex k fuel = Some c -> ~ In c ex.
+Proof.
+  induction fuel as [|f IH]; intros k c H; [discriminate|].
+  cbn [first_free] in H. fold (cand base k) in H. destruct (smem (cand base k) ex) eqn:E.
+  - eapply IH, H.
+  - injection H as <-. apply smem_false, E.
+Qed.
+
+Lemma first_free_total base ex k : first_free base ex k (S (length ex)) <> None.
+Proof.
+  intro H. pose proof (first_free_none base ex _ k H) as Hall.
+  set (l := map (fun j => cand base (k + j)) (seq 0 (S (length ex)))).
+  assert (Hnd : NoDup l).
+  { apply Injective_map_NoDup; [|apply seq_NoDup].
+    intros i j E. apply cand_inj in E. lia. }
+  assert (Hincl : incl l ex).
+  { intros x Hx. apply in_map_iff in Hx as [j [<- Hj]]. apply in_seq in Hj. apply Hall. lia. }
+  pose proof (NoDup_incl_length Hnd Hincl) as Hlen. unfold l in Hlen. rewrite map_length, seq_length in Hlen. lia.
+Qed.
+
+(* the name returned is not in use (neither a variable nor a dimension),
+   nothing else changes, and no error is raised *)
+Theorem netcdf_name_fresh base s :
+  exists n, netcdf_name base s = (n, upd_names (cons n) s) /\ ~ In n (existing s).
+Proof.
+  unfold netcdf_name. destruct (smem base (existing s)) eqn:E.
+  - destruct (first_free base (existing s) 1 (S (length (existing s)))) as [n|] eqn:F.
+    + exists n. split; [reflexivity | eapply first_free_some, F].
+    + exfalso. eapply first_free_total, F.
+  - exists base. split; [reflexivity | apply smem_false, E].
+Qed.
+
+(* ------------------------------------------------------------------------ *)
+(* 11. The old fields are still read: an invariant of the appending pass     *)
+(* ------------------------------------------------------------------------ *)
+Definition rnames (refs : list (string * list (string * string))) : list string :=
+  concat (map (fun r => map snd (snd r)) refs).
+
+(* relative to the file E: every name of E is in use; no registered
+   construct or bounds variable bears the name of a data variable of E; the
+   variables created so far are not variables of E; the file is E plus
+   variables whose names are not names of E and which refer to no data
+   variable of E *)
+Record Inv (e : file) (s : wst) : Prop := {
+  i_names : forall n, In n (names_of e) -> In n (existing s);
+  i_seen : forall en, In en (w_seen s) -> ~ In (e_ncvar en) (dnames e);
+  i_bnds : forall p, In p (w_bnds s) -> ~ In (snd p) (dnames e);
+  i_created : forall n, In n (w_created s) -> ~ In n (map v_name (d_vars e));
+  i_file : exists vv, d_vars (w_file s) = d_vars e ++ vv /\
+           forall w, In w vv -> ~ In (v_name w) (names_of e) /\
+                                forall n, In n (ref_names w) -> ~ In n (dnames e) }.
+
+Lemma dnames_names e n : In n (dnames e) -> In n (names_of e).
+Proof.
+  unfold dnames, names_of, data_vars. intro H. apply in_map_iff in H as [v [<- Hv]].
+  apply filter_In in Hv as [Hv _]. apply in_or_app. right. apply in_or_app. left. apply in_map, Hv.
+Qed.
+
+Lemma varnames_names e n : In n (map v_name (d_vars e)) -> In n (names_of e).
+Proof. intro H. unfold names_of. apply in_or_app. right. apply in_or_app. left. exact H. Qed.
+
+Lemma inv_same e s s' :
+  w_names s' = w_names s -> w_dimsz s' = w_dimsz s -> w_seen s' = w_seen s -> w_bnds s' = w_bnds s ->
+  w_created s' = w_created s -> w_file s' = w_file s -> Inv e s -> Inv e s'.
+Proof.
+  intros A B C D E F [H1 H2 H3 H4 H5].
+  constructor; unfold existing in *; rewrite ?A, ?B, ?C, ?D, ?E, ?F; auto.
+Qed.
+Ltac inv_same := apply inv_same; reflexivity.
+
+Lemma inv_upd_names e n s : Inv e s -> Inv e (upd_names (cons n) s).
+Proof.
+  intros [H1 H2 H3 H4 H5]. constructor; auto.
+  intros x Hx. specialize (H1 x Hx). unfold existing in *. simpl. right. exact H1.
+Qed.
+
+Lemma inv_upd_dimsz e p s : Inv e s -> Inv e (upd_dimsz (cons p) s).
+Proof.
+  intros [H1 H2 H3 H4 H5]. constructor; auto.
+  intros x Hx. specialize (H1 x Hx). unfold existing in *. simpl.
+  apply in_app_or in H1 as [H1 | H1]; apply in_or_app; [left | right; right]; exact H1.
+Qed.
+
+Lemma inv_upd_seen e en s :
+  ~ In (e_ncvar en) (dnames e) -> Inv e s -> Inv e (upd_seen (fun l => l ++ [en]) s).
+Proof.
+  intros Hn [H1 H2 H3 H4 H5]. constructor; auto.
+  intros x Hx. simpl in Hx. apply in_app_or in Hx as [Hx | [<- | []]]; auto.
+Qed.
+
+Lemma inv_upd_bnds e p s : ~ In (snd p) (dnames e) -> Inv e s -> Inv e (upd_bnds (cons p) s).
+Proof.
+  intros Hn [H1 H2 H3 H4 H5]. constructor; auto.
+  intros x [<- | Hx]; auto.
+Qed.
+
+Lemma inv_upd_bdims e f s : Inv e s -> Inv e (upd_bdims f s).
+Proof. inv_same. Qed.
+Lemma inv_upd_span e f s : Inv e s -> Inv e (upd_span f s).
+Proof. inv_same. Qed.
+Lemma inv_set_err e s : Inv e s -> Inv e (set_err s).
+Proof. inv_same. Qed.
+Lemma inv_log e ev s : Inv e s -> Inv e (log ev s).
+Proof. inv_same. Qed.
+Lemma inv_set_gl e gl s : Inv e s -> Inv e (set_gl gl s).
+Proof. inv_same. Qed.
+Lemma inv_reopen e s : Inv e s -> Inv e (reopen s).
+Proof. intros [H1 H2 H3 H4 H5]. constructor; auto; try (intros n []). Qed.
+
+Lemma inv_create_dim e m n z s : Inv e s -> Inv e (create_dim m n z s).
+Proof.
+  intro H. unfold create_dim. destruct (m_dry m || w_err s); [exact H|].
+  destruct (smem n _); [apply inv_set_err, H|].
+  destruct H as [H1 H2 H3 H4 H5]. constructor; auto.
+Qed.
+
+Lemma inv_create_var e m v s :
+  ~ In (v_name v) (names_of e) -> (forall n, In n (ref_names v) -> ~ In n (dnames e)) ->
+  Inv e s -> Inv e (create_var m v s).
+Proof.
+  intros Hn Hr H. unfold create_var. destruct (m_dry m || w_err s); [exact H|].
+  destruct (smem (v_name v) _); [apply inv_set_err, H|].
+  destruct H as [H1 H2 H3 H4 H5]. constructor; auto.
+  - intros x [<- | Hx]; [|auto]. intro Hin. apply Hn, varnames_names, Hin.
+  - destruct H5 as [vv [Hv Hall]]. exists (vv ++ [v]). simpl. split.
+    + rewrite Hv, app_assoc. reflexivity.
+    + intros w Hw. apply in_app_or in Hw as [Hw | [<- | []]]; auto.
+Qed.
+
+Lemma ref_names_add_ref a l w x :
+  In x (ref_names (add_ref a l w)) -> In x (ref_names w) \/ In x (map snd l).
+Proof.
+  unfold ref_names, add_ref. simpl. rewrite map_app, concat_app. intro H.
+  apply in_app_or in H as [H | H].
+  - left. apply in_concat in H as [y [Hy Hx]]. apply in_map_iff in Hy as [r [<- Hr]].
+    apply filter_In in Hr as [Hr _]. apply in_concat. eexists. split; [apply in_map, Hr | exact Hx].
+  - right. simpl in H. rewrite app_nil_r in H. exact H.
+Qed.
+
+Lemma inv_set_created_ref e m n a l s :
+  (forall x, In x (map snd l) -> ~ In x (dnames e)) -> Inv e s -> Inv e (set_created_ref m n a l s).
+Proof.
+  intros Hl H. unfold set_created_ref. destruct (m_dry m || w_err s); [exact H|].
+  destruct (smem n (w_created s)) eqn:E; [|exact H].
+  destruct H as [H1 H2 H3 H4 H5]. constructor; auto.
+  destruct H5 as [vv [Hv Hall]].
+  set (g := fun v => if String.eqb (v_name v) n then add_ref a l v else v).
+  exists (map g vv). simpl. split.
+  - rewrite Hv, map_app. f_equal.
+    rewrite <- (map_id (d_vars e)) at 2. apply map_ext_in.
+    intros v Hin. unfold g. destruct (String.eqb (v_name v) n) eqn:En; [|reflexivity].
+    apply String.eqb_eq in En. exfalso. apply smem_In in E. apply (H4 n E).
+    rewrite <- En. apply in_map. exact Hin.
+  - intros w Hw. apply in_map_iff in Hw as [w0 [<- Hw0]]. destruct (Hall w0 Hw0) as [Ha Hb].
+    unfold g. destruct (String.eqb (v_name w0) n); [|split; assumption].
+    split; [exact Ha|]. intros x Hx. apply ref_names_add_ref in Hx as [Hx | Hx]; auto.
+Qed.
+
+Lemma inv_netcdf_name e b s :
+  Inv e s -> Inv e (snd (netcdf_name b s)) /\ ~ In (fst (netcdf_name b s)) (names_of e).
+Proof.
+  intro H. destruct (netcdf_name_fresh b s) as [n [-> Hn]]. simpl. split.
+  - apply inv_upd_names, H.
+  - intro Hin. apply Hn. apply (i_names _ _ H), Hin.
+Qed.
+
+Lemma inv_find_seen e ig c d s en :
+  Inv e s -> find_seen ig c d s = Some en -> ~ In (e_ncvar en) (dnames e).
+Proof. intros H F. apply find_seen_sound in F as [F _]. apply (i_seen _ _ H), F. Qed.
+
+Lemma inv_write_var e m n dims c attrs refs s :
+  ~ In n (names_of e) -> (forall x, In x (rnames refs) -> ~ In x (dnames e)) ->
+  Inv e s -> Inv e (write_var m n dims c attrs refs s).
+Proof.
+  intros Hn Hr H. unfold write_var. apply inv_create_var; [exact Hn | exact Hr |].
+  apply inv_upd_seen; [|exact H]. simpl. intro Hin. apply Hn, dnames_names, Hin.
+Qed.
+
+Ltac inv_name H :=
+  match goal with |- context [netcdf_name ?b ?s0] =>
+    let Hi := fresh "Hi" in let Hf := fresh "Hf" in let n := fresh "n" in let s1 := fresh "s" in
+    destruct (inv_netcdf_name _ b s0 H) as [Hi Hf]; destruct (netcdf_name b s0) as [n s1];
+    cbn [fst snd] in Hi, Hf end.
+
+(* _write_bounds, after the bounds dimension has been chosen *)
+Definition wb_tail (m : mode) (k : cst) (c : content) (cdims : list string) (cvar : string) (b : bcontent)
+           (bdim : string) (s1 : wst) : list (string * list (string * string)) * wst :=
+  let size := last (b_shape b) 0%Z in
+  let nd := cdims ++ [bdim] in
+  let bc := bnd_content b in
+  match find_seen false bc (Some nd) s1 with
+  | Some e => ([("bounds", [("", e_ncvar e)])], upd_bnds (cons (cvar, e_ncvar e)) s1)
+  | None =>
+    let isnew := negb (smem bdim (map fst (w_dimsz s1))) in
+    let s2 := if isnew then create_dim m bdim size (upd_dimsz (cons (bdim, size)) s1) else s1 in
+    let default := if isnew then (cvar ++ "_bounds")%string else "bounds" in
+    let '(bv, s3) := netcdf_name (match k_bvar k with Some n => n | None => default end) s2 in
+    let attrs := filter (fun p => negb (smem (fst p) c17_omit_bounds_props && has_prop (c_props c) (fst p)))
+                        (b_props b) in
+    let s4 := write_var m bv nd bc attrs [] s3 in
+    ([("bounds", [("", bv)])], upd_bnds (cons (cvar, bv)) s4)
+  end.
+
+Lemma write_bounds_tail m k c cd cv s :
+  write_bounds m k c cd cv s =
+  match c_bnd c with
+  | None => ([], s)
+  | Some b =>
+    let size := last (b_shape b) 0%Z in
+    let base := match k_bdim k with Some d => d | None => ("bounds" ++ nat_str (Z.to_nat size))%string end in
+    match find (fun d => option_eqb Z.eqb (dim_size s d) (Some size)) (w_bdims s) with
+    | Some d => wb_tail m k c cd cv b d s
+    | None => wb_tail m k c cd cv b (fst (netcdf_name base s)) (upd_bdims (fun l => l ++ [fst (netcdf_name base s)]) (snd (netcdf_name base s)))
+    end
+  end.
+Proof.
+  unfold write_bounds. destruct (c_bnd c) as [b|]; [|reflexivity].
+  cbv zeta. destruct (find _ (w_bdims s)); [reflexivity|].
+  destruct (netcdf_name _ s). reflexivity.
+Qed.
+
+Definition refs_ok (e : file) (refs : list (string * list (string * string))) : Prop :=
+  forall x, In x (rnames refs) -> ~ In x (dnames e).
+
+Lemma inv_wb_tail e m k c cd cv b bdim s :
+  Inv e s -> Inv e (snd (wb_tail m k c cd cv b bdim s)) /\ refs_ok e (fst (wb_tail m k c cd cv b bdim s)).
+Proof.
+  intro H. unfold wb_tail. cbv zeta.
+  destruct (find_seen false (bnd_content b) (Some (cd ++ [bdim])) s) as [en|] eqn:F.
+  - pose proof (inv_find_seen _ _ _ _ _ _ H F) as Hn. simpl. split.
+    + apply inv_upd_bnds; [exact Hn | exact H].
+    + intros x [<- | []]. exact Hn.
+  - set (s2 := if negb (smem bdim (map fst (w_dimsz s))) then _ else s).
+    assert (H2 : Inv e s2).
+    { unfold s2. destruct (negb _); [|exact H]. apply inv_create_dim, inv_upd_dimsz, H. }
+    inv_name H2. simpl. split.
+    + apply inv_upd_bnds; [simpl; intro Hin; apply Hf, dnames_names, Hin|].
+      apply inv_write_var; [exact Hf | intros x [] | exact Hi].
+    + intros x [<- | []]. intro Hin. apply Hf, dnames_names, Hin.
+Qed.
+
+Lemma inv_write_bounds e m k c cd cv s :
+  Inv e s -> Inv e (snd (write_bounds m k c cd cv s)) /\ refs_ok e (fst (write_bounds m k c cd cv s)).
+Proof.
+  intro H. rewrite write_bounds_tail. destruct (c_bnd c) as [b|]; [|simpl; split; [exact H | intros x []]].
+  cbv zeta. destruct (find _ (w_bdims s)).
+  - apply inv_wb_tail, H.
+  - apply inv_wb_tail, inv_upd_bdims. apply (inv_netcdf_name e _ s H).
+Qed.
+
+Ltac inv_bounds H :=
+  match goal with |- context [write_bounds ?m ?k ?c ?cd ?cv ?s0] =>
+    let Hi := fresh "Hbi" in let Hr := fresh "Hbr" in let ex := fresh "ex" in let s1 := fresh "s" in
+    destruct (inv_write_bounds _ m k c cd cv s0 H) as [Hi Hr]; destruct (write_bounds m k c cd cv s0) as [ex s1];
+    cbn [fst snd] in Hi, Hr end.
+
+Definition name_ok (e : file) (n : string) : Prop := ~ In n (dnames e).
+
+Lemma fresh_ok e n : ~ In n (names_of e) -> name_ok e n.
+Proof. intros H Hin. apply H, dnames_names, Hin. Qed.
+
+(* every construct writer: the invariant is kept and the variable returned
+   is not a data variable of E *)
+Lemma inv_write_dimcoord e m ax k c s :
+  fx_dimname (m_var m) = true -> Inv e s ->
+  Inv e (snd (write_dimcoord m ax k c s)) /\ name_ok e (fst (fst (write_dimcoord m ax k c s))).
+Proof.
+  intros Hfx H. unfold write_dimcoord.
+  assert (C : forall en, find_seen false c None s = Some en -> name_ok e (e_ncvar en))
+    by (intros en F; eapply inv_find_seen; eassumption).
+  assert (N : let '(nv, s1) := dimcoord_name m ax k c s in Inv e s1 /\ ~ In nv (names_of e)).
+  { unfold dimcoord_name. rewrite Hfx.
+    destruct (a_ncdim ax); destruct (k_ncvar k); try destruct (name_of k c None);
+      match goal with |- context [netcdf_name ?b s] =>
+        pose proof (inv_netcdf_name e b s H) as X; destruct (netcdf_name b s); exact X end. }
+  assert (G : let '(nv, s1) := dimcoord_name m ax k c s in
+              let s2 := create_dim m nv (a_size ax) (upd_dimsz (cons (nv, a_size ax)) s1) in
+              let '(extra, s3) := write_bounds m k c [nv] nv s2 in
+              Inv e (write_var m nv [nv] c (c_props c) extra s3) /\ name_ok e nv).
+  { destruct (dimcoord_name m ax k c s) as [nv s1]. destruct N as [N1 N2]. cbv zeta.
+    assert (H2 : Inv e (create_dim m nv (a_size ax) (upd_dimsz (cons (nv, a_size ax)) s1)))
+      by (apply inv_create_dim, inv_upd_dimsz, N1).
+    inv_bounds H2. split; [|apply fresh_ok, N2].
+    apply inv_write_var; assumption. }
+  destruct (find_seen false c None s) as [en|] eqn:F.
+  - specialize (C en eq_refl). destruct (e_ncdims en) as [|d0 r].
+    + simpl. auto.
+    + destruct (String.eqb (e_ncvar en) d0); [simpl; auto|].
+      destruct (dimcoord_name m ax k c s) as [nv s1]. cbv zeta in G.
+      destruct (write_bounds _ _ _ _ _ _). exact G.
+  - destruct (dimcoord_name m ax k c s) as [nv s1]. cbv zeta in G.
+    destruct (write_bounds _ _ _ _ _ _). exact G.
+Qed.
+
+Lemma inv_write_scalar e m k c s :
+  Inv e s -> Inv e (snd (write_scalar m k c s)) /\ name_ok e (fst (write_scalar m k c s)).
+Proof.
+  intro H. unfold write_scalar. destruct (find_seen _ _ _ s) as [en|] eqn:F.
+  - simpl. split; [exact H | eapply inv_find_seen; eassumption].
+  - inv_name H. inv_bounds Hi. simpl. split; [|apply fresh_ok, Hf].
+    apply inv_write_var; assumption.
+Qed.
+
+Lemma inv_write_aux e m k d s :
+  Inv e s -> Inv e (snd (write_aux m k d s)) /\ name_ok e (fst (write_aux m k d s)).
+Proof.
+  intro H. unfold write_aux. destruct (find_seen _ _ _ s) as [en|] eqn:F.
+  - simpl. split; [exact H | eapply inv_find_seen; eassumption].
+  - inv_name H. inv_bounds Hi. simpl. split; [|apply fresh_ok, Hf].
+    apply inv_write_var; assumption.
+Qed.
+
+Lemma inv_write_anc e m k d df s :
+  Inv e s -> Inv e (snd (write_anc m k d df s)) /\ name_ok e (fst (write_anc m k d df s)).
+Proof.
+  intro H. unfold write_anc. destruct (find_seen _ _ _ s) as [en|] eqn:F.
+  - simpl. split; [exact H | eapply inv_find_seen; eassumption].
+  - inv_name H. inv_bounds Hi. simpl. split; [|apply fresh_ok, Hf].
+    apply inv_write_var; [exact Hf | intros x [] | exact Hbi].
+Qed.
+
+Lemma inv_write_msr e m k d s :
+  Inv e s -> Inv e (snd (write_msr m k d s)) /\ name_ok e (fst (write_msr m k d s)).
+Proof.
+  intro H. unfold write_msr. destruct (find_seen _ _ _ s) as [en|] eqn:F.
+  - simpl. split; [exact H | eapply inv_find_seen; eassumption].
+  - inv_name H. simpl. split; [|apply fresh_ok, Hf].
+    apply inv_write_var; [exact Hf | intros x [] | exact Hi].
+Qed.
+
+Definition names_ok (e : file) (l : list string) : Prop := forall n, In n l -> name_ok e n.
+
+Lemma inv_write_axis e m f dims i ax x s :
+  fx_dimname (m_var m) = true -> Inv e s -> names_ok e (x_coords x) ->
+  Inv e (snd (write_axis m f dims i ax (x, s))) /\ names_ok e (x_coords (fst (write_axis m f dims i ax (x, s)))).
+Proof.
+  intros Hfx H Hx. unfold write_axis. destruct (dim_for i dims 0) as [[p k]|].
+  - destruct (nmem i (f_daxes f)).
+    + destruct (inv_write_dimcoord e m ax k (k_c k) s Hfx H) as [A _].
+      destruct (write_dimcoord m ax k (k_c k) s) as [[nv nd] s1]. simpl in *. auto.
+    + destruct (inv_write_scalar e m k (k_c k) s H) as [A B].
+      destruct (write_scalar m k (k_c k) s) as [nv s1]. simpl in *. split; [exact A|].
+      intros n Hn. apply in_app_or in Hn as [Hn | [<- | []]]; auto.
+  - destruct (nmem i (f_daxes f)); [|simpl; auto].
+    destruct (if match spanning f i with [] => false | _ => true end then _ else None); [simpl; auto|].
+    inv_name H. simpl. split; [|exact Hx]. apply inv_create_dim, inv_upd_dimsz, Hi.
+Qed.
+
+Lemma inv_write_axes e m f dims axs : forall i x s,
+  fx_dimname (m_var m) = true -> Inv e s -> names_ok e (x_coords x) ->
+  Inv e (snd (write_axes m f dims i axs (x, s))) /\ names_ok e (x_coords (fst (write_axes m f dims i axs (x, s)))).
+Proof.
+  induction axs as [|ax r IH]; intros i x s Hfx H Hx; cbn [write_axes]; [simpl; auto|].
+  destruct (inv_write_axis e m f dims i ax x s Hfx H Hx) as [A B].
+  destruct (write_axis m f dims i ax (x, s)) as [x1 s1]. simpl in A, B. apply IH; assumption.
+Qed.
+
+Lemma inv_write_auxs e m x l : forall acc s,
+  Inv e s -> names_ok e acc ->
+  Inv e (snd (write_auxs m x l acc s)) /\ names_ok e (fst (write_auxs m x l acc s)).
+Proof.
+  induction l as [|k r IH]; intros acc s H Ha; cbn [write_auxs]; [simpl; auto|].
+  destruct (inv_write_aux e m k (dims_of x (k_axes k)) s H) as [A B].
+  destruct (write_aux m k (dims_of x (k_axes k)) s) as [nv s1]. simpl in A, B. apply IH; [exact A|].
+  intros n Hn. apply in_app_or in Hn as [Hn | [<- | []]]; auto.
+Qed.
+
+Lemma inv_write_ancs e m f x l : forall p acc s,
+  Inv e s -> names_ok e acc ->
+  Inv e (snd (write_ancs m f x l p acc s)) /\ names_ok e (fst (write_ancs m f x l p acc s)).
+Proof.
+  induction l as [|k r IH]; intros p acc s H Ha; cbn [write_ancs]; [simpl; auto|].
+  destruct (inv_write_anc e m k (dims_of x (k_axes k)) (anc_default f p) s H) as [A B].
+  destruct (write_anc m k (dims_of x (k_axes k)) (anc_default f p) s) as [nv s1]. simpl in A, B.
+  apply IH; [exact A|].
+  intros n Hn. apply in_app_or in Hn as [Hn | [<- | []]]; auto.
+Qed.
+
+Lemma inv_write_msrs e m x l : forall acc s,
+  Inv e s -> names_ok e (map snd acc) ->
+  Inv e (snd (write_msrs m x l acc s)) /\ names_ok e (map snd (fst (write_msrs m x l acc s))).
+Proof.
+  induction l as [|k r IH]; intros acc s H Ha; cbn [write_msrs]; [simpl; auto|].
+  destruct (inv_write_msr e m k (dims_of x (k_axes k)) s H) as [A B].
+  destruct (write_msr m k (dims_of x (k_axes k)) s) as [nv s1]. simpl in A, B. apply IH; [exact A|].
+  intros n Hn. rewrite map_app in Hn. apply in_app_or in Hn as [Hn | [<- | []]]; auto.
+Qed.
+
+Lemma assoc_In {A} (l : list (string * A)) k v : assoc k l = Some v -> In (k, v) l.
+Proof.
+  induction l as [|[k' v'] r IH]; simpl; [discriminate|].
+  destruct (String.eqb k k') eqn:E; [|auto].
+  intro H. injection H as <-. apply String.eqb_eq in E. subst. left. reflexivity.
+Qed.
+
+(* the names in a formula_terms attribute: variables of domain ancillaries
+   or their registered bounds variables *)
+Lemma ft_terms_ok e f r ko av s :
+  Inv e s -> names_ok e av ->
+  names_ok e (map snd (map fst (ft_terms f r ko av s))) /\ names_ok e (map snd (map snd (ft_terms f r ko av s))).
+Proof.
+  intros H Ha. unfold ft_terms. set (z := hd 0%nat (k_axes ko)).
+  induction (r_terms r) as [|t ts IH]; [split; intros n []|].
+  cbn [map concat]. rewrite !map_app. destruct IH as [IH1 IH2].
+  destruct (snd t) as [j|]; [|simpl; auto].
+  destruct (nth_error av j) as [nv|] eqn:En; [|simpl; auto].
+  destruct (nth_error (f_anc f) j) as [ka|]; [|simpl; auto].
+  assert (Hnv : name_ok e nv) by (apply Ha; eapply nth_error_In; eassumption).
+  split; intros n Hn; apply in_app_or in Hn as [Hn | Hn]; auto; destruct Hn as [<- | []]; simpl; [exact Hnv|].
+  destruct (assoc nv (w_bnds s)) as [bn|] eqn:Eb; [|exact Hnv].
+  destruct (nmem z (k_axes ka)); [|exact Hnv].
+  apply assoc_In in Eb. apply (i_bnds _ _ H (nv, bn)), Eb.
+Qed.
+
+Lemma inv_write_formula e m f dims x av s :
+  Inv e s -> names_ok e av -> Inv e (write_formula m f dims x av s).
+Proof.
+  intros H Ha. unfold write_formula. destruct (f_ref f) as [r|]; [|exact H].
+  destruct (nth_error dims (r_owner r)) as [ko|]; [|exact H].
+  destruct (option_eqb _ _ _); [|exact H].
+  destruct (ft_terms_ok e f r ko av s H Ha) as [T1 T2].
+  destruct (ft_terms f r ko av s) as [|t ts]; [exact H|].
+  destruct (lookup_nat _ _) as [ov|]; [|exact H].
+  destruct (negb (m_post m) || fx_formula (m_var m)).
+  - assert (H1 : Inv e (set_created_ref m ov "formula_terms" (map fst (t :: ts)) s))
+      by (apply inv_set_created_ref; [exact T1 | exact H]).
+    destruct (assoc ov (w_bnds s)); [|exact H1].
+    apply inv_set_created_ref; [exact T2 | exact H1].
+  - destruct (assoc ov (w_bnds s)); exact H.
+Qed.
+
+Lemma rnames_app a b : rnames (a ++ b) = rnames a ++ rnames b.
+Proof. unfold rnames. rewrite map_app, concat_app. reflexivity. Qed.
+
+Lemma inv_write_field e m f s :
+  fx_dimname (m_var m) = true -> Inv e s -> Inv e (write_field m f s).
+Proof.
+  intros Hfx H. unfold write_field. destruct (add_csn f) as [dims bad].
+  set (s0 := if bad then set_err s else s).
+  assert (H0 : Inv e s0) by (unfold s0; destruct bad; [apply inv_set_err, H | exact H]).
+  destruct (inv_write_axes e m f dims (f_axes f) 0
+              {| x_a2d := []; x_dimvar := []; x_coords := []; x_span := [] |} s0 Hfx H0) as [H1 X1];
+    [intros n []|].
+  destruct (write_axes m f dims 0 (f_axes f) _) as [x s1]. simpl in H1, X1.
+  destruct (inv_write_auxs e m x (f_aux f) (x_coords x) s1 H1 X1) as [H2 X2].
+  destruct (write_auxs m x (f_aux f) (x_coords x) s1) as [coords s2]. simpl in H2, X2.
+  destruct (inv_write_ancs e m f x (f_anc f) 0 [] s2 H2) as [H3 X3]; [intros n []|].
+  destruct (write_ancs m f x (f_anc f) 0 [] s2) as [ancvars s3]. simpl in H3, X3.
+  destruct (inv_write_msrs e m x (f_msr f) [] s3 H3) as [H4 X4]; [intros n []|].
+  destruct (write_msrs m x (f_msr f) [] s3) as [msrs s4]. simpl in H4, X4.
+  pose proof (inv_write_formula e m f dims x ancvars s4 H4 X3) as H5.
+  inv_name H5.
+  apply inv_upd_span, inv_create_var; [exact Hf | | exact Hi].
+  unfold ref_names. cbn [v_refs]. fold (rnames ((match msrs with [] => [] | _ => [("cell_measures", msrs)] end) ++
+              (match coords with [] => [] | _ => [("coordinates", map (fun n => ("", n)) coords)] end))).
+  rewrite rnames_app. intros y Hy. apply in_app_or in Hy as [Hy | Hy].
+  - destruct msrs as [|m0 mr]; [destruct Hy|]. unfold rnames in Hy. simpl in Hy. rewrite app_nil_r in Hy.
+    apply X4, Hy.
+  - destruct coords as [|c0 cr]; [destruct Hy|]. unfold rnames in Hy. cbn [map concat snd] in Hy.
+    rewrite app_nil_r, map_map in Hy. cbn [snd] in Hy. rewrite map_id in Hy. apply X2, Hy.
+Qed.
+
+Lemma inv_write_fields e m fs : forall s,
+  fx_dimname (m_var m) = true -> Inv e s -> Inv e (write_fields m fs s).
+Proof.
+  unfold write_fields. induction fs as [|f r IH]; intros s Hfx H; simpl; [exact H|].
+  apply IH; [exact Hfx | apply inv_write_field; assumption].
+Qed.
+
+Lemma inv_write_globals e m o fs s : Inv e s -> Inv e (write_globals m o fs s).
+Proof.
+  intro H. unfold write_globals. destruct fs as [|f0 r]; [apply inv_set_err, H|].
+  destruct (conv_value o (f0 :: r)); [|apply inv_set_err, H].
+  apply inv_set_gl. destruct (negb (m_dry m) && negb (m_post m) && negb (w_err s)); [|exact H].
+  destruct H as [H1 H2 H3 H4 H5]. constructor; auto.
+Qed.
+
+Lemma covers_inv vr e orig : covers vr e orig = true -> Inv e (dry_run vr e orig).
+Proof.
+  unfold covers. set (s := dry_run vr e orig). intro H.
+  apply andb_true_iff in H as [H _]. apply andb_true_iff in H as [H Hlen].
+  apply andb_true_iff in H as [H Hb]. apply andb_true_iff in H as [Hn Hs].
+  rewrite forallb_forall in Hn, Hs, Hb.
+  destruct (proj1 (le_dry_run vr e orig) e (ext_init e)) as (_ & [vv Hv] & _ & Hc). fold s in Hv, Hc.
+  constructor.
+  - intros n Hin. apply smem_In, Hn, Hin.
+  - intros en Hin. apply smem_false, negb_true_iff, Hs, Hin.
+  - intros p Hin. apply smem_false, negb_true_iff, Hb, Hin.
+  - exact Hc.
+  - exists vv. split; [exact Hv|]. apply Nat.eqb_eq in Hlen. rewrite Hv, app_length in Hlen.
+    destruct vv; [intros w [] | simpl in Hlen; lia].
+Qed.
+
+Lemma covers_dims vr e orig v d :
+  covers vr e orig = true -> In v (data_vars e) -> In d (v_dims v) -> assoc d (d_dims e) <> None.
+Proof.
+  unfold covers. intro H. apply andb_true_iff in H as [_ H]. rewrite forallb_forall in H.
+  intros Hv Hd. specialize (H v Hv). rewrite forallb_forall in H. specialize (H d Hd).
+  destruct (assoc d (d_dims e)); [discriminate | discriminate].
+Qed.
+
+(* every name met while assembling a field of E is a name of E *)
+Lemma reach_names e fuel : forall names,
+  (forall n, In n names -> In n (names_of e)) ->
+  forall n ov, In (n, ov) (reach fuel e names) -> In n (names_of e).
+Proof.
+  induction fuel as [|k IH]; intros names Hall n ov Hin; [destruct Hin|].
+  simpl in Hin. apply in_concat in Hin as [l [Hl Hin]]. apply in_map_iff in Hl as [n0 [<- Hn0]].
+  destruct (lookup_var e n0) as [v|] eqn:E.
+  - destruct Hin as [Heq | Hin]; [injection Heq as <- _; auto|].
+    apply (IH (ref_names v ++ v_dims v)) with (ov := ov); [|exact Hin].
+    unfold lookup_var in E. apply find_some in E as [Hv _].
+    intros x Hx. unfold names_of. apply in_or_app. right. apply in_or_app. right.
+    apply in_app_or in Hx as [Hx | Hx]; apply in_or_app; [left | right].
+    + unfold referenced. apply in_concat. eexists. split; [apply in_map, Hv | exact Hx].
+    + apply in_concat. eexists. split; [apply in_map, Hv | exact Hx].
+  - destruct Hin as [Heq | []]. injection Heq as <- _. auto.
+Qed.
+
+Lemma var_names_in e v : In v (d_vars e) -> forall n, In n (ref_names v ++ v_dims v) -> In n (names_of e).
+Proof.
+  intros Hv x Hx. unfold names_of. apply in_or_app. right. apply in_or_app. right.
+  apply in_app_or in Hx as [Hx | Hx]; apply in_or_app; [left | right].
+  - unfold referenced. apply in_concat. eexists. split; [apply in_map, Hv | exact Hx].
+  - apply in_concat. eexists. split; [apply in_map, Hv | exact Hx].
+Qed.
+
+Lemma append_run_inv vr nc4 o e orig new :
+  fx_dimname vr = true -> covers vr e orig = true ->
+  exists vv, d_vars (w_file (append_run vr nc4 o e orig new)) = d_vars e ++ vv /\
+             forall w, In w vv -> ~ In (v_name w) (names_of e) /\
+                                  forall n, In n (ref_names w) -> ~ In n (dnames e).
+Proof.
+  intros Hfx Hc. unfold append_run. destruct (refuse vr nc4 orig new).
+  - exists []. simpl. split; [symmetry; apply app_nil_r | intros w []].
+  - pose proof (covers_inv vr e orig Hc) as H1.
+    destruct (w_err (dry_run vr e orig)); [exact (i_file _ _ H1)|].
+    apply i_file. apply inv_log, inv_write_fields; [exact Hfx|].
+    apply inv_write_globals, inv_reopen, inv_log, H1.
+Qed.
+
+(* THE OLD FIELDS: every data variable of E is still a data variable of the
+   file after the append, and the field assembled from it - the variable,
+   the global attributes, the dimension sizes, the whole closure of
+   referenced and coordinate variables, to any depth - is the same *)
+Theorem old_fields_kept vr nc4 o e orig new fuel v :
+  fx_dimname vr = true -> covers vr e orig = true -> In v (data_vars e) ->
+  In v (data_vars (fst (append vr nc4 o e orig new))) /\
+  view fuel (fst (append vr nc4 o e orig new)) v = view fuel e v.
+Proof.
+  intros Hfx Hc Hv.
+  destruct (append_run_inv vr nc4 o e orig new Hfx Hc) as [vv [Hvv Hall]].
+  assert (Hin : In v (d_vars e)) by (unfold data_vars in Hv; apply filter_In in Hv as [Hv _]; exact Hv).
+  apply (old_fields_frame fuel e _ vv v).
+  - apply preserve.
+  - exact Hvv.
+  - exact Hv.
+  - intros d Hd. eapply covers_dims; eassumption.
+  - intros n Hn Hbad. apply in_map_iff in Hbad as [w [Ew Hw]].
+    destruct (Hall w Hw) as [Ha _]. apply Ha. rewrite Ew.
+    exact (reach_names e fuel _ (var_names_in e v Hin) n None Hn).
+  - intros w Hw Hbad. destruct (Hall w Hw) as [_ Hb]. apply (Hb _ Hbad).
+    unfold dnames. apply in_map, Hv.
+Qed.
+
+(* the same through any sequence of appends whose re-reads cover the file *)
+Theorem old_fields_kept_seq vr nc4 reread fuel : forall news e v,
+  fx_dimname vr = true ->
+  (forall e', covers vr e' (reread e') = true) ->
+  In v (data_vars e) ->
+  In v (data_vars (append_seq vr nc4 reread e news)) /\
+  view fuel (append_seq vr nc4 reread e news) v = view fuel e v.
+Proof.
+  induction news as [|n r IH]; intros e v Hfx Hc Hv; cbn [append_seq]; [split; [exact Hv | reflexivity]|].
+  destruct (old_fields_kept vr nc4 (fst n) e (reread e) (snd n) fuel v Hfx (Hc e) Hv) as [A B].
+  destruct (IH _ v Hfx Hc A) as [C D]. split; [exact C | rewrite D; exact B].
 Qed.
